@@ -39,6 +39,10 @@ pub struct Case {
     /// handshake marker everywhere), 2 = all zero, 3 = 01 01 01..
     #[serde(default)]
     pub stale: u8,
+    /// seconds of normal operation (housekeeping every second) between building the state and the first injection;
+    /// capped so that the state stays what it is (pending handshakes keep retrying for 120 s, a lingering one for 60 s)
+    #[serde(default)]
+    pub age: u8,
 }
 
 pub fn stale_bytes(stale: u8) -> Vec<u8> {
@@ -97,6 +101,8 @@ fn diff_kind(before: &str, after: &str) -> &'static str {
     };
     if field(before, "peers=") != field(after, "peers=") {
         "peer-set-changed"
+    } else if field(before, "expiry=") != field(after, "expiry=") {
+        "peer-expiry-or-addresses-changed"
     } else if field(before, "pending=") != field(after, "pending=") {
         "pending-handshake-created-or-removed"
     } else if field(before, "claims=") != field(after, "claims=") || field(before, "cache=") != field(after, "cache=") {
@@ -116,8 +122,11 @@ pub fn run_case(ctx: &Ctx, c: &Case) -> Vec<Viol> {
         out.push(Viol::new("lab-build-panic", format!("{:?}", lab.sim.panics[0]), json!({"kind": "inject", "case": c})));
         return out;
     }
+    if c.age > 0 {
+        lab.sim.run(c.age.min(40) as i64);
+        lab.sim.take_iface(T);
+    }
     let strict = c.state != RState::EstPlain;
-    let has_ticks = c.injections.iter().any(|i| matches!(i, Inj::Tick));
     let mut had_verbatim = false;
     let scrub: Vec<u8> = stale_bytes(c.stale);
     for (idx, inj) in c.injections.iter().enumerate() {
@@ -149,7 +158,11 @@ pub fn run_case(ctx: &Ctx, c: &Case) -> Vec<Viol> {
         lab.sim.deliver_to(T, stranger, scrub.clone());
         let before = lab.observe();
         lab.sim.deliver_to(T, src, bytes.clone());
-        let one = json!({"kind": "inject", "case": {"state": c.state, "injections": [inj], "stale": c.stale}});
+        let one = if c.age == 0 && idx == 0 || !c.injections[..idx].iter().any(|i| matches!(i, Inj::Tick)) {
+            json!({"kind": "inject", "case": {"state": c.state, "injections": [inj], "stale": c.stale, "age": c.age}})
+        } else {
+            json!({"kind": "inject", "case": {"state": c.state, "injections": &c.injections[..=idx], "stale": c.stale, "age": c.age}})
+        };
         if let Some((_, p, ctxt)) = lab.sim.panics.first() {
             out.push(Viol::new(
                 format!("node-{}", p.sig()),
@@ -159,7 +172,7 @@ pub fn run_case(ctx: &Ctx, c: &Case) -> Vec<Viol> {
             return out;
         }
         let wrote = lab.sim.take_iface(T);
-        if strict && !has_ticks && !had_verbatim {
+        if strict && !had_verbatim {
             let after = lab.observe();
             if !wrote.is_empty() {
                 out.push(Viol::new(
@@ -271,7 +284,7 @@ fn grid_case(state: RState, src: Src, maxlen: usize) -> Case {
             }
         }
     }
-    Case { state, injections, stale: 0 }
+    Case { state, injections, stale: 0, age: 0 }
 }
 
 /// truncations and length-field corruptions of every genuine kind, from wrong parties
@@ -291,7 +304,7 @@ fn corruption_case(state: RState, src: Src, dense: bool) -> Case {
             }
         }
     }
-    Case { state, injections, stale: 0 }
+    Case { state, injections, stale: 0, age: 0 }
 }
 
 fn inj_strategy() -> impl Strategy<Value = Inj> {
@@ -334,6 +347,13 @@ pub fn run(ctx: &Ctx) {
         if st == RState::Unknown {
             batches.push(grid_case(st, Src::PeerP, ctx.tier.pick(24, 80)));
         }
+        // the same after some seconds of normal operation: expiry times and counters have moved on since the last
+        // authenticated message, so a datagram that refreshes anything without being verified shows up
+        for (age, src) in [(3u8, Src::Natural), (35, Src::Natural), (3, Src::OtherPeer)] {
+            let mut g = grid_case(st, src, ctx.tier.pick(26, 80));
+            g.age = age;
+            batches.push(g);
+        }
         // short datagrams are the ones whose processing can run into the stale bytes behind them: other stale patterns
         for stale in 1..4u8 {
             for src in [Src::Natural, Src::OtherPeer, Src::Stranger] {
@@ -351,14 +371,14 @@ pub fn run(ctx: &Ctx) {
     let mut split: Vec<Case> = vec![];
     for b in batches {
         for chunk in b.injections.chunks(400) {
-            split.push(Case { state: b.state, injections: chunk.to_vec(), stale: b.stale });
+            split.push(Case { state: b.state, injections: chunk.to_vec(), stale: b.stale, age: b.age });
         }
     }
     ctx.par_items(&split, |_, c| {
         let v = run_case(ctx, c);
         ctx.report(v);
     });
-    ctx.subspace("grid: 7 states x sources x lengths 0..=80 x 12 first bytes x 4 body classes (+ lengths 0..=12 in front of 3 other kinds of stale buffer bytes)", n, true);
+    ctx.subspace("grid: 7 states x sources x lengths 0..=80 x 12 first bytes x 4 body classes (+ lengths 0..=12 in front of 3 other kinds of stale buffer bytes; + lengths 0..=26 after 3 s / 35 s of normal operation)", n, true);
     ctx.sample("grid", || json!({"state": "EstNoLinger", "source": "address of established peer P", "datagram": "05 + 11 random bytes"}));
 
     // (2) truncations / corruptions of genuine datagrams from wrong parties
@@ -375,7 +395,7 @@ pub fn run(ctx: &Ctx) {
     for b in batches {
         n2 += b.injections.len() as u64;
         for chunk in b.injections.chunks(400) {
-            split.push(Case { state: b.state, injections: chunk.to_vec(), stale: b.stale });
+            split.push(Case { state: b.state, injections: chunk.to_vec(), stale: b.stale, age: 0 });
         }
     }
     ctx.par_items(&split, |_, c| {
@@ -399,7 +419,7 @@ pub fn run(ctx: &Ctx) {
                             injections.push(Inj::Derived { src: src.clone(), kind: (kind + 1) % 9, len: 100_000, pos: usize::MAX, val: 0 });
                         }
                     }
-                    batches.push(Case { state: st, injections, stale: (kind as u8 + reps as u8) % 4 });
+                    batches.push(Case { state: st, injections, stale: (kind as u8 + reps as u8) % 4, age: 0 });
                 }
             }
         }
@@ -446,7 +466,7 @@ pub fn run(ctx: &Ctx) {
             *b = if i == 0 { 0 } else if i == 1 { 64 } else { 0x5a };
         }
         drop(lab);
-        let v = run_case(ctx, &Case { state: *st, injections: vec![Inj::Datagram(Src::Natural, hex(&d)), Inj::Datagram(Src::Stranger, hex(&d))], stale: 0 });
+        let v = run_case(ctx, &Case { state: *st, injections: vec![Inj::Datagram(Src::Natural, hex(&d)), Inj::Datagram(Src::Stranger, hex(&d))], stale: 0, age: 0 });
         ctx.report(v);
     });
     ctx.subspace("buffer-filling handshake datagrams (65435 bytes, copied key selector, parser runs dry at 12 different points) x 7 states", fill.len() as u64 * 2, true);
@@ -462,15 +482,15 @@ pub fn run(ctx: &Ctx) {
             b[0] = [0xff, 0, 1, 2, 3, 0x80][k];
             injections.push(Inj::Datagram(Src::Natural, hex(&b)));
         }
-        let v = run_case(ctx, &Case { state: *st, injections, stale: (*len % 4) as u8 });
+        let v = run_case(ctx, &Case { state: *st, injections, stale: (*len % 4) as u8, age: 0 });
         ctx.report(v);
     });
     ctx.subspace("random datagrams of 300 / 1500 / 9000 / 65000 bytes x 6 first bytes x 7 states", big.len() as u64 * 6, false);
 
     // (4) proptest sequences with ticks
     let nseq: u32 = ctx.tier.pick(300, 5_000);
-    ctx.proptest("pt-seq", nseq, || (any::<u16>(), proptest::collection::vec(inj_strategy(), 1..50), 0u8..4), |(s, injections, stale)| {
-        let c = Case { state: ALL_STATES[pick_idx(*s, ALL_STATES.len())], injections: injections.clone(), stale: *stale };
+    ctx.proptest("pt-seq", nseq, || (any::<u16>(), proptest::collection::vec(inj_strategy(), 1..50), 0u8..4, prop_oneof![Just(0u8), 0u8..40]), |(s, injections, stale, age)| {
+        let c = Case { state: ALL_STATES[pick_idx(*s, ALL_STATES.len())], injections: injections.clone(), stale: *stale, age: *age };
         let v = run_case(ctx, &c);
         if injections.len() < 6 {
             ctx.sample("sequence", || serde_json::to_value(&c).unwrap());
